@@ -23,11 +23,11 @@ META = {
                     "own Web-Mercator tile arithmetic used only for the bounds cross-check (1e-9 deg) and parent boxes"],
     "deciding": ["invariant:tiling", "post:get_index_of", "invariant:refinement"],
 }
-META["added"] = 'Added: special points (antimeridian, limits, beyond +-180) queried one by one, get_bbox clause, tile edges at exactly 0.0 probed within 1 ulp, clusters above threshold inside one maximum-zoom tile. array queries mixing inside and outside points, deep swarms refined to zoom 12-19 with a per-cell area clause. catalogs with events poleward of the Mercator limit. get_cartesian before lookups.'
+META["added"] = 'Added: special points (antimeridian, limits, beyond +-180) queried one by one, get_bbox clause, tile edges at exactly 0.0 probed within 1 ulp, clusters above threshold inside one maximum-zoom tile. array queries mixing inside and outside points, deep swarms refined to zoom 12-19 with a per-cell area clause. catalogs with events poleward of the Mercator limit. get_cartesian before lookups. zoom 7 and 8 in the quick tier too; from_catalog with magnitude bins and events below the lowest edge.'
 MANIFEST = {
     "technique": "invariants on live QuadtreeGrid2D objects after each constructor (prefix-free quadkeys with dyadic measure 1 in exact integer arithmetic, bounds vs own tile arithmetic, refinement recount of every leaf and internal node, area sum) + post-condition on get_index_of vs brute-force exact containment on boundary-adjacent probes",
     "level_text": "Each constructed grid is checked as an object (tiling by exact dyadic measure, bounds, refinement criterion by recounting events per leaf and per internal node with the same half-open comparisons, cell areas) and every lookup of boundary-adjacent probe points is compared with the unique cell found by exact comparison against the grid's own bounds.",
-    "level_note": "Trusted: exact float comparisons, Fraction arithmetic for the dyadic measure. Catalog/threshold/zoom space sampled; zooms 1..6 (quick) / 1..8 (thorough) enumerated.",
+    "level_note": "Trusted: exact float comparisons, Fraction arithmetic for the dyadic measure. Catalog/threshold/zoom space sampled; zooms 1..8 enumerated.",
 }
 WATCHDOG_S = {"quick": 900, "thorough": 5400}
 
@@ -308,11 +308,17 @@ def ex_catalog(ctx, kind, threshold, zoom, seed):
     from csep.core.regions import QuadtreeGrid2D
     rng = numpy.random.default_rng([seed, 17])
     lon, lat = _catalog(rng, kind, zoom)
-    cat = fixtures.catalog(lon, lat, numpy.full(len(lon), 5.0))
+    kw = {}
+    mvals = numpy.full(len(lon), 5.0)
+    if seed % 3 == 0:
+        # magnitude bins are bound to the grid while it is built; most events lie below the lowest edge - they are events of the catalog all the same
+        kw["magnitudes"] = fixtures.mag_bins("4.95", "0.1", 4)
+        mvals = numpy.random.default_rng([seed, 171]).choice([4.0, 4.5, 5.0, 5.5], len(lon), p=[0.4, 0.3, 0.2, 0.1])
+    cat = fixtures.catalog(lon, lat, mvals)
     rc = {"exec": "catalog", "args": {"kind": kind, "threshold": threshold, "zoom": zoom, "seed": seed}}
     ctx.current_case = rc
-    tags = {"ctor": "from_catalog", "kind": kind}
-    ok, reg, tb = ctx.call(QuadtreeGrid2D.from_catalog, cat, threshold, zoom=zoom)
+    tags = {"ctor": "from_catalog", "kind": kind, "magnitude_bins_given": bool(kw)}
+    ok, reg, tb = ctx.call(QuadtreeGrid2D.from_catalog, cat, threshold, zoom=zoom, **kw)
     if not ok:
         ctx.violate("from_catalog raised", rc, observed=repr(reg), tb=tb, tags=tags)
         return
@@ -387,7 +393,7 @@ EXECUTORS = {"single": ex_single, "catalog": ex_catalog, "quadkeys": ex_quadkeys
 def run(ctx):
     thorough = ctx.tier == "thorough"
     ci = 0
-    for z in range(1, (8 if thorough else 6) + 1):
+    for z in range(1, 8 + 1):          # zoom 8 = 65536 cells (array lookups that work through the cells in blocks see several blocks)
         ci += 1
         if ctx.mine(ci):
             ex_single(ctx, z, seed=ctx.seed)
